@@ -217,7 +217,10 @@ func extractArgumentsType(f *ast.FuncDecl) ([]string, bool) {
 	var fields []*ast.Field
 	if f.Recv != nil {
 		if len(f.Recv.List) != 1 {
-			panic("Expect only one receiver; please fix panicparse's code")
+			// Not valid Go, but go/parser accepts "func () f()" and
+			// "func (a A, b B) f()"; the source was likely edited since the binary
+			// was built. Leave the arguments unprocessed.
+			return nil, false
 		}
 		// If it is an object receiver (vs a pointer receiver), its address is not
 		// printed in the stack trace so it needs to be ignored.
